@@ -26,11 +26,11 @@ MCCutoffs == {0, 2, 3, 4}
 \* neighbour order reversed, transition states as end points, up to 3 targets
 MCNetsEnds == Nets(3, 3, 6, 6)
 \* thorough
-MCNetsBig == Nets(5, 5, 7, 7)
+MCNetsBig == Nets(4, 4, 6, 6)
 MCCutoffsBig == {0, 2, 3, 4, 5}
 \* energies: smaller graphs, every energy assignment over 0..2
-MCNetsSpan == Nets(4, 3, 5, 5)
-MCNetsSpanBig == Nets(4, 4, 6, 6)
+MCNetsSpan == Nets(4, 4, 4, 5)
+MCNetsSpanBig == Nets(4, 3, 5, 5)
 MCEVals == 0..2
 \* the rejected variants: a small set suffices
 MCNetsTiny == Nets(3, 2, 5, 4)
